@@ -241,6 +241,22 @@ Definition free_item (fuel : nat) (line : text) (had_omp : bool) (start : nat) (
 
 Definition space_or_digit (c : ascii) : bool := aeqb c " "%char || is_digit c.
 
+(* the backslash continuation of a preprocessor directive *)
+Fixpoint cpp_loop (start : nat) (k : nat) (acc : text) (l : text) (st : rst) : option ritem * rst :=
+  match k with
+  | 0 => (None, set_err st)
+  | S k' =>
+      if ends_with_char "\"%char (rstrip l) then
+        match get_single_line st with
+        | (Some l', st') => cpp_loop start k' (acc ++ removelast (rstrip l)) l' st'
+        | (None, st') => (None, set_err st')        (* None.rstrip() -> AttributeError *)
+        end
+      else match strip (acc ++ l) with
+           | [] => (None, set_err st)
+           | t => (Some (RCpp t start (r_linecount st)), st)
+           end
+  end.
+
 (* get_source_item *)
 Definition get_source_item (s : rst) : option ritem * rst :=
   let fuel := S (S (length (r_src s) + length (r_filo s))) in
@@ -250,21 +266,7 @@ Definition get_source_item (s : rst) : option ritem * rst :=
       let start := r_linecount s1 in
       if (match line with [] => false | _ => true end) && starts_with ["#"%char] (lstrip line) then
         (* preprocessor directive, with backslash continuation *)
-        let fix cpp (k : nat) (acc : text) (l : text) (st : rst) : option ritem * rst :=
-          match k with
-          | 0 => (None, set_err st)
-          | S k' =>
-              if ends_with_char "\"%char (rstrip l) then
-                match get_single_line st with
-                | (Some l', st') => cpp k' (acc ++ removelast (rstrip l)) l' st'
-                | (None, st') => (None, set_err st')        (* None.rstrip() -> AttributeError *)
-                end
-              else match strip (acc ++ l) with
-                   | [] => (None, set_err st)
-                   | t => (Some (RCpp t start (r_linecount st)), st)
-                   end
-          end in
-        cpp fuel [] line s1
+        cpp_loop start fuel [] line s1
       else if r_free s1 then
         let '(line1, had_omp) := if r_omp s1 then omp_free_init line else (line, false) in
         free_item fuel line1 had_omp start s1
